@@ -4,6 +4,7 @@
   wire spelling of `EVal` (extends the `Val` spelling of PygModel/Basic.lean):
     cell            as in Basic (`NI:`/`NF:`/`NB:` numpy scalars are the same cells)
     PT:<us>         a `pd.Timestamp`  (the `dt` cell it is `==` to)
+    HF:<q> | HF:nan an `np.float32`   (the float cell it holds: value q/4, or NaN)
     DT:<us>         a `datetime.date` (its own constructor: `date != datetime`)
     (L v*) (T v*)   list / tuple
     (D (hexkey v)*) plain dict;  (DC <n> (hexkey v)*)  dict subclass number n >= 1
@@ -21,6 +22,7 @@ open Pyg
 def cellAtom : Sexp → Option Cell
   | .atom s =>
     if s.startsWith "PT:" then (s.drop 3).toString.toInt?.map .dt
+    else if s.startsWith "HF:" then Cell.parse (s.drop 1).toString
     else if s.startsWith "DT:" then Option.none
     else Cell.parse s
   | _ => Option.none
